@@ -6,7 +6,7 @@ CONSTANTS
   WindowRows = 3
   MergeMode = "all"
   Ordered = FALSE
-  Offsets <- OffSmall
+  Offsets <- Off00
   Rects <- WindowRects
   MaxCells = 3
   MaxMerges = 1
